@@ -10,7 +10,10 @@ import (
 
 func c10Property(t *rapid.T) {
 	hx.Eval()
-	a, b := genOperand(t, "A"), genOperand(t, "B")
+	digits := rapid.IntRange(0, 3).Draw(t, "digitDomain") == 0
+	a, b := genOperandIn(t, "A", digits), genOperandIn(t, "B", digits)
+	hx.ClassIf(digits, "digit_suffixed_ids_all_edge_types")
+	hx.ClassIf(nearEqualize(t, a, b), "shared_node_differing_only_below_the_second")
 	sa, sb := hx.GraphSets(a), hx.GraphSets(b)
 	common := map[string]int{}
 	for k := range sa.Nodes {
